@@ -80,6 +80,11 @@ def user_args(comp, rpat, bspat):
 WRONG_FIXED = ["s.phi", "bs0.phi", "bs1.phi", "bs2.phi"]
 
 
+def _uo(user_offsets):
+    """which of the three loop-offset gates the user wrote: all, none, or a pattern"""
+    return tuple(user_offsets) if isinstance(user_offsets, (tuple, list)) else (bool(user_offsets),) * 3
+
+
 def build_program(arg_list, user_offsets, loop_phases, wrong=None):
     """wrong: name of one hard-coded layout argument that the source sets to a different value"""
     prog = sf.TDMProgram(NCONC)
@@ -90,7 +95,7 @@ def build_program(arg_list, user_offsets, loop_phases, wrong=None):
             for i in range(3):
                 ops.Rgate(p[2 * i + 1]) | q[NIDX[i]]
                 ops.BSgate(p[2 * i + 2], 0.3 if wrong == f"bs{i}.phi" else PI / 2) | (q[NIDX[i + 1]], q[NIDX[i]])
-                if user_offsets:
+                if _uo(user_offsets)[i]:
                     ops.Rgate(loop_phases[i]) | q[NIDX[i]]
             ops.MeasureFock() | q[0]
     return prog
@@ -138,7 +143,7 @@ def same_statistics(Va, Vb):
 def check(loop_phases, comp, rpat, bspat, prepared, user_offsets, res, wrong=None, ranges=True):
     from strawberryfields.tdm import utils as tu
 
-    case = {"borealis": True, "loop_phases": list(loop_phases), "comp": comp, "rpat": rpat, "bspat": bspat, "prepared": prepared, "user_offsets": user_offsets, "wrong": wrong, "ranges": ranges}
+    case = {"borealis": True, "loop_phases": list(loop_phases), "comp": comp, "rpat": rpat, "bspat": bspat, "prepared": prepared, "user_offsets": list(_uo(user_offsets)), "wrong": wrong, "ranges": ranges}
     dev = device(loop_phases)
     ua = user_args(comp, rpat, bspat)
     with warnings.catch_warnings():
@@ -171,7 +176,7 @@ def check(loop_phases, comp, rpat, bspat, prepared, user_offsets, res, wrong=Non
         res.stats["borealis_rejected"] += 1
         if wrong:
             return True
-        if in_range_src and not user_offsets:
+        if in_range_src and not any(_uo(user_offsets)):
             res.violation("C12|borealis|rejects-admissible", f"borealis compiler rejected an in-range program (loop phases {loop_phases}, {comp} modes, r {rpat}, bs {bspat}, prepared={prepared}): {str(e)[:160]}", case)
         return False
     except Exception as e:
@@ -203,7 +208,14 @@ def check(loop_phases, comp, rpat, bspat, prepared, user_offsets, res, wrong=Non
     # semantics
     # the ideal experiment: loops without intrinsic phase - unless the user wrote the offset gates into the program,
     # in which case the program means exactly what it says
-    mu_i, V_i = joint(ideal_list, loop_phases if user_offsets else (0.0, 0.0, 0.0))
+    uo = _uo(user_offsets)
+    if any(uo) and not all(uo):
+        # offset gates written for some loops only: what the experiment then "means" is not defined by the documentation
+        # (the compensation of a compiler-handled loop has to be undone at the next loop, which the user claimed for
+        # himself) - only layout, offset values and ranges are judged, which happened above
+        res.stats["borealis_partial_user_offsets_structural_only"] += 1
+        return True
+    mu_i, V_i = joint(ideal_list, tuple(ph if u else 0.0 for ph, u in zip(loop_phases, uo)))
     mu_c, V_c = joint(params, loop_phases)
     ok, why = same_statistics(V_i, V_c)
     if ok:
@@ -214,25 +226,26 @@ def check(loop_phases, comp, rpat, bspat, prepared, user_offsets, res, wrong=Non
     undone = [list(a) for a in params]
     corr_prev = np.zeros(T)
     for loop in range(3):
-        corr = np.array([loop_phases[loop] * int(j / DELAYS[loop]) for j in range(T)])
-        idealc = np.array(ideal_list[1 + 2 * loop]) + (0 if user_offsets else corr - corr_prev)
+        # a loop whose offset gate the user wrote is left as written: no correction is applied to it
+        corr = np.zeros(T) if uo[loop] else np.array([loop_phases[loop] * int(j / DELAYS[loop]) for j in range(T)])
+        idealc = np.array(ideal_list[1 + 2 * loop]) + (0 if uo[loop] else corr - corr_prev)
         for j in range(T):
             d = (params[1 + 2 * loop][j] - idealc[j]) % (2 * PI)
             if min(d, 2 * PI - d) > 1e-7:
                 if abs(d - PI) > 1e-7:
-                    res.violation("C12|borealis|compensation-value", f"compiled r{loop}[{j}] = {params[1 + 2 * loop][j]:.6f} is neither the compensated value {idealc[j]:.6f} nor that value shifted by pi (mod 2 pi)", case)
+                    res.violation("C12|borealis|compensation-value" + ("|partial-user-offsets" if (any(uo) and not all(uo)) else ""), f"compiled r{loop}[{j}] = {params[1 + 2 * loop][j]:.6f} is neither the compensated value {idealc[j]:.6f} nor that value shifted by pi (mod 2 pi)", case)
                     return True
                 shifted += 1
                 undone[1 + 2 * loop][j] = idealc[j]
         corr_prev = corr
     if shifted == 0:
-        res.violation("C12|borealis|statistics", f"no phase had to be moved by pi, yet the compiled program's photon statistics differ from the ideal experiment ({why}); loop phases {loop_phases}, r {rpat}, bs {bspat}, prepared={prepared}, user offsets={user_offsets}", case)
+        res.violation("C12|borealis|statistics" + ("|partial-user-offsets" if (any(uo) and not all(uo)) else ""), f"no phase had to be moved by pi, yet the compiled program's photon statistics differ from the ideal experiment ({why}); loop phases {loop_phases}, r {rpat}, bs {bspat}, prepared={prepared}, user offsets={user_offsets}", case)
         return True
     res.stats["borealis_pi_shifted_cases"] += 1
     mu_u, V_u = joint(undone, loop_phases)
     ok2, why2 = same_statistics(V_i, V_u)
     if not ok2:
-        res.violation("C12|borealis|statistics|after-undoing-pi-shifts", f"even with the {shifted} pi-shifted values put back, the compiled program differs from the ideal experiment ({why2}); loop phases {loop_phases}, r {rpat}", case)
+        res.violation("C12|borealis|statistics|after-undoing-pi-shifts" + ("|partial-user-offsets" if (any(uo) and not all(uo)) else ""), f"even with the {shifted} pi-shifted values put back, the compiled program differs from the ideal experiment ({why2}); loop phases {loop_phases}, r {rpat}", case)
     return True
 
 
@@ -247,6 +260,12 @@ def cases(quick):
                     for prepared in (False, True):
                         for uo in (False, True):
                             out.append((cert, comp, rpat, bspat, prepared, uo))
+    # offset gates written by the user for some loops only
+    for cert in certs[1:]:
+        for comp in comps[:2]:
+            for rpat in ("const", "alt"):
+                for uo in ((True, False, False), (False, True, False), (False, False, True), (True, True, False), (True, False, True), (False, True, True)):
+                    out.append((cert, comp, rpat, "half", False, uo))
     # sources that deviate from the layout in one hard-coded argument: must be refused
     for cert in certs[:1] + certs[-1:]:
         for w in WRONG_FIXED:
@@ -268,5 +287,5 @@ def work(task):
 
 def replay(case):
     res = Res()
-    check(tuple(case["loop_phases"]), case["comp"], case["rpat"], case["bspat"], case["prepared"], case["user_offsets"], res, case.get("wrong"), case.get("ranges", True))
+    check(tuple(case["loop_phases"]), case["comp"], case["rpat"], case["bspat"], case["prepared"], tuple(case["user_offsets"]) if isinstance(case["user_offsets"], list) else case["user_offsets"], res, case.get("wrong"), case.get("ranges", True))
     return [(s, w) for s, w, _ in res.viol]
